@@ -291,8 +291,9 @@ func (r *dRunner) runOp(op *dOp) map[string]interface{} {
 	key := string(keyb)
 	val, _ := hex.DecodeString(op.V)
 	var ki KeyInfo
-	if op.D != "" && op.Op != "destroy" && op.Op != "scan" && op.Op != "iterscan" && op.Op != "mdel" && op.Op != "stats" && op.Op != "fragkeys" && op.Op != "cs" {
+	if op.D != "" && op.Op != "destroy" && op.Op != "scan" && op.Op != "iterscan" && op.Op != "hstate" && op.Op != "mdel" && op.Op != "stats" && op.Op != "fragkeys" && op.Op != "cs" {
 		ki = r.cl.KeyInfo(op.D, key)
+		ob["part"] = ki.Part
 	}
 	israw := strings.HasPrefix(op.C, "raw")
 	t0 := time.Now()
@@ -701,6 +702,10 @@ func (r *dRunner) runOp(op *dOp) map[string]interface{} {
 		ob["keys"] = keys
 	case "iterscan":
 		r.iterScan(op, ob)
+	case "hstate":
+		for k, v := range r.hstate(op.D) {
+			ob[k] = v
+		}
 	case "dump":
 		ob["r"] = "ok"
 		ob["copies"] = r.dump(op.D, key)
